@@ -86,9 +86,12 @@ class DispatchRegionsRewriter(RewritePattern):
         ]
         # Make sure function call is only inserted once
         inserted_function_call = False
+        # dispatch in all blocks (no short-circuiting)
         if any(
-            dispatcher(block, comparison_dm.result, lambda x: dispatch_to_dm(x, self.ctx))
-            for block in func_op.body.blocks
+            [
+                dispatcher(block, comparison_dm.result, lambda x: dispatch_to_dm(x, self.ctx))
+                for block in func_op.body.blocks
+            ]
         ):
             inserted_function_call = True
             rewriter.insert_op(call_and_condition_dm, InsertPoint.at_start(func_op.body.blocks[0]))
@@ -103,8 +106,10 @@ class DispatchRegionsRewriter(RewritePattern):
             comparison_compute := arith.CmpiOp(func_call, cst_0, "eq"),
         ]
         if any(
-            dispatcher(block, comparison_compute.result, lambda x: dispatch_to_compute(x, self.ctx))
-            for block in func_op.body.blocks
+            [
+                dispatcher(block, comparison_compute.result, lambda x: dispatch_to_compute(x, self.ctx))
+                for block in func_op.body.blocks
+            ]
         ):
             # insert function call in dominator block (first one)
             if inserted_function_call:
